@@ -84,6 +84,45 @@ pub fn run(r: &mut Report) {
         r.case(c.id, json!({"a_products": c.ap, "b_materials": c.bm, "b_products": c.bp, "material_rules": format!("{:?}", c.rules), "product_rules": format!("{:?}", c.prules)}),
                if c.expect { "Ok" } else { "Err" }, format!("{:?}", res), res == Ok(c.expect));
     }
+    // the pattern grammar, construct by construct (wildcards, character classes, negation, ranges, on their own and combined), in a
+    // consuming rule (ALLOW p; DISALLOW *  -> Ok exactly when the name matches) and a forbidding one (DISALLOW p -> the opposite);
+    // a DISALLOW pattern that cannot be interpreted fails verification while artifacts are left
+    {
+        let table: Vec<(&str, Vec<&str>, Vec<&str>)> = vec![
+            ("id.[kp]ey", vec!["id.key", "id.pey"], vec!["id.xey", "id.[kp]ey", "id.ey"]),
+            ("main.[ch]", vec!["main.c", "main.h"], vec!["main.o", "main.[ch]", "main.ch"]),
+            ("[!a]b", vec!["xb", "bb"], vec!["ab", "[!a]b", "b"]),
+            ("f[0-9]", vec!["f0", "f9"], vec!["fa", "f[0-9]", "f10"]),
+            ("x[]]y", vec!["x]y"], vec!["xy", "x[]]y"]),
+            ("[[]z", vec!["[z"], vec!["z", "[[]z"]),
+            ("*.[ch]", vec!["a.c", ".h"], vec!["a.o", "*.[ch]x"]),
+            ("?[ab]", vec!["xa", "bb"], vec!["a", "xab"]),
+            ("a?c", vec!["abc", "a.c"], vec!["ac", "abbc"]),
+            ("lit", vec!["lit"], vec!["lit2", "li", "LIT"]),
+        ];
+        let mut bad: Vec<String> = vec![]; let mut n = 0;
+        for (pat, yes, no) in &table {
+            for (name, m) in yes.iter().map(|x| (*x, true)).chain(no.iter().map(|x| (*x, false))) {
+                n += 2;
+                let consuming = run_two(&[], &[(name, 1)], &[], vec![ArtifactRule::Allow(vp(pat)), dis()], allow_all());
+                let forbidding = run_two(&[], &[(name, 1)], &[], vec![ArtifactRule::Disallow(vp(pat)), ArtifactRule::Allow(vp("*"))], allow_all());
+                if consuming != Ok(m) && bad.len() < 8 { bad.push(format!("ALLOW {:?}; DISALLOW * over {:?}: {:?}, expected {}", pat, name, consuming, m)); }
+                if forbidding != Ok(!m) && bad.len() < 8 { bad.push(format!("DISALLOW {:?} over {:?}: {:?}, expected {}", pat, name, forbidding, !m)); }
+            }
+        }
+        for pat in ["secrets/[a-", "[", "a[!", "a**b"] {
+            for rules in [vec![ArtifactRule::Allow(vp(pat)), ArtifactRule::Allow(vp("*"))], vec![ArtifactRule::Disallow(vp(pat)), ArtifactRule::Allow(vp("*"))], vec![ArtifactRule::Allow(vp("*")), ArtifactRule::Disallow(vp(pat))]] {
+                n += 1;
+                let shown = format!("{:?}", rules);
+                let res = run_two(&[], &[("secrets/a", 1), (pat, 1)], &[], rules, allow_all());
+                // a consuming rule with such a pattern consumes nothing; a DISALLOW with such a pattern must not silently forbid
+                // nothing while artifacts are left in the queue (the last list has consumed everything before it is reached)
+                let expect = !shown.starts_with("[Disallow");
+                if res != Ok(expect) && bad.len() < 8 { bad.push(format!("{} with an uninterpretable pattern: {:?}, expected {}", shown, res, expect)); }
+            }
+        }
+        r.case("pattern-grammar", json!({"inputs": n}), "every construct of the pattern grammar is honoured; an uninterpretable DISALLOW pattern fails verification", format!("{:?}", bad), bad.is_empty());
+    }
     multi_alg(r, 1, "match-multi-algorithm");
     multi_alg_states(r, 4, "two-algorithm-artifact-states");
     state_matrix(r);
